@@ -119,15 +119,17 @@ def write_readme():
         rows.append("| %s | %s | %s | %s | %s |" % (sid, m["breaks_property"], m["change"].replace("|", "/"),
                                                   m["needs_to_manifest"].replace("|", "/"), rep.replace("|", "/")))
     txt = ("# Seeded breaking changes\n\n"
-           "Each directory holds one change to ngicks/gokugen written by an independent sub-agent that saw only the text of\n"
-           "one property and a scratch worktree of /repo: `patch.diff`, the demonstration (`demo_test.go`, how to run it in\n"
+           "Each directory holds one change to ngicks/gokugen written by an independent sub-agent that saw only property texts\n"
+           "(rounds 1-4: the text of one property; rounds 5-6: the twenty texts and one source file to change) and a scratch\n"
+           "worktree of /repo, never anything from /verif: `patch.diff`, the demonstration (`demo_test.go`, how to run it in\n"
            "`RUN.txt`), the author's `NOTES.md`, and `meta.json`. Every change compiles, passes the existing suite and was\n"
            "confirmed in a scratch worktree (demonstration passes without it and fails with it). None is ever committed to /repo.\n\n"
            "The last column is produced by `tools/seedmatrix.py` (quick tier of the registered checks, run against a scratch\n"
            "worktree carrying the change): *predicate* = the property's own boolean predicate failed on an observed history\n"
            "(failing input in the replay file); *correspondence* = model and implementation disagree on an observed history;\n"
            "*no-failing-input-found* = the tie broke (e.g. the harness could not complete) without a history on which the\n"
-           "property itself fails; MISSED = the check passed.\n\n"
+           "property itself fails; MISSED = the check passed (for a property other than the first one named this only means\n"
+           "that the change does not break that other property in a way its check explores).\n\n"
            "| seed | property | change | needs | reported by |\n|---|---|---|---|---|\n" + "\n".join(rows) + "\n")
     open(os.path.join(SEEDED, "README.md"), "w").write(txt)
 
